@@ -17,8 +17,8 @@ import (
 
 func init() {
 	fw.Register(&fw.Check{
-		ID: "C05",
-		Rule: "cases: (a) batches of doubles drawn from directed classes (random bit patterns, subnormals, powers of 2/10 and neighbours, the 1e21/1e-6 layout switch points, integers in [1e11,1e21) with trailing zeros, 2^53 neighbourhood, extremes), each fed in a random JSON spelling and as a Go value; (b) strings / member names over all Unicode planes in random escape spellings; (c) nested structured values re-spelled 3x (member order, whitespace, escapes, number spelling); (d) fixed RFC 8785 vectors. Oracle: harness RFC 8785 serializer with an exact math/big ES6 number formatter. distinct_nontrivial = distinct (class, decimal exponent, digit count) for numbers and distinct token-shape hashes for structured values.",
+		ID:          "C05",
+		Rule:        "cases: (a) batches of doubles drawn from directed classes (random bit patterns, subnormals, powers of 2/10 and neighbours, the 1e21/1e-6 layout switch points, integers in [1e11,1e21) with trailing zeros, 2^53 neighbourhood, extremes), each fed in a random JSON spelling and as a Go value; (b) strings / member names over all Unicode planes in random escape spellings; (c) nested structured values re-spelled 3x (member order, whitespace, escapes, number spelling); (d) fixed RFC 8785 vectors. Oracle: harness RFC 8785 serializer with an exact math/big ES6 number formatter. distinct_nontrivial = distinct (class, decimal exponent, digit count) for numbers and distinct token-shape hashes for structured values.",
 		Assumptions: []string{"encoding/json decoding, strconv.ParseFloat correctly rounded, math/big", "harness reference JCS implementation (self-tested against RFC 8785 vectors at worker start)"},
 		Require:     []string{"numbers", "strings", "structured", "govalue-path", "bytes-path"},
 		Run:         runC05,
